@@ -50,6 +50,9 @@ type WStep struct {
 	// Deadline: for control: 0 = zero time, n>0 = now + n hours.  For op
 	// deadline: 0 = zero, n>0 = base + n hours.
 	Deadline int `json:"deadline,omitempty"`
+	// DeadlineMs (op deadline, owned schedules on a fake clock): the write
+	// deadline is that many milliseconds from now.
+	DeadlineMs int `json:"deadline_ms,omitempty"`
 }
 
 // Call is one API call made by the executor.
@@ -332,6 +335,9 @@ func (x *wexec) step(si int, s WStep) {
 			t = x.tw.Base.Add(time.Duration(s.Deadline) * time.Hour)
 		} else if s.Deadline < 0 {
 			t = x.tw.Base.Add(-time.Hour) // long expired
+		}
+		if s.DeadlineMs > 0 {
+			t = time.Now().Add(time.Duration(s.DeadlineMs) * time.Millisecond) // fake-clock scenarios
 		}
 		x.call(si, 0, "SetWriteDeadline", false, -1, func() error { return c.SetWriteDeadline(t) })
 		x.deadline = t
